@@ -220,6 +220,29 @@ def rule_owned(check):
     check.floor(R, "configuration parameters on the rewrite path", n_cfg, 10)
 
 
+def _per_call_owners(prog, f, allowed, depth=0, seen=None):
+    """names of the functions that account for a construction in f: f itself when it is reviewed (or has
+    no crate caller), otherwise the owners of all of its callers (a helper extracted from them)"""
+    if f.name in allowed or depth > 4:
+        return {f.name}
+    seen = seen or set()
+    if f.def_path in seen:
+        return set()
+    parent = f
+    # closures belong to their parent function
+    while parent.rec.get("parent_fn") and prog.by_def.get(parent.rec["parent_fn"]) is not None:
+        parent = prog.by_def[parent.rec["parent_fn"]]
+        if parent.name in allowed:
+            return {parent.name}
+    callers = [g for g, n in prog.sites_calling(parent) if not g.rec.get("gen") and g is not parent]
+    if not callers:
+        return {parent.name}
+    out = set()
+    for g in callers:
+        out |= _per_call_owners(prog, g, allowed, depth + 1, seen | {f.def_path})
+    return out or {parent.name}
+
+
 def rule_fresh(check):
     R = "PER-CALL-FRESH"
     check.rule(R, "compiler, source map, transform status, telemetry, ident provider, literal collector and chain visitor are constructed inside per-call / per-block functions only")
@@ -231,7 +254,10 @@ def rule_fresh(check):
                 st = c.get("self_ty") or c["path"]
                 if ty.split("::")[-1] == st.split("<")[0].split("::")[-1]:
                     sites.append((f, n))
-        callers = {f.name for f, _ in sites}
+        # a helper that is only ever called from the reviewed per-call functions is as per-call as they are
+        callers = set()
+        for f, _ in sites:
+            callers |= _per_call_owners(prog, f, allowed)
         key = "%s/%s::%s" % (R, ty.split("::")[-1], name)
         if not sites:
             check.bad(R, key, "-", "no construction site of %s::%s found (anchor lost)" % (ty, name))
